@@ -28,7 +28,9 @@ func yamlKeyOf(st *types.Struct, i int) string {
 	return name
 }
 
-// configKeys walks the configuration structure from cmd/keymasterd.AppConfigFile through module-defined structs.
+// configKeys walks the configuration structure from cmd/keymasterd.AppConfigFile through module-defined structs and
+// returns, for every leaf and intermediate field, its dotted YAML key path (inlined structs add no level) with the
+// printed Go type of the field.
 func configKeys(p *Prog) map[string]string {
 	out := map[string]string{}
 	var root types.Type
@@ -42,21 +44,19 @@ func configKeys(p *Prog) map[string]string {
 	if root == nil {
 		return out
 	}
-	seen := map[types.Type]bool{}
-	var walk func(t types.Type)
-	walk = func(t types.Type) {
-		t = types.Unalias(t)
-		if seen[t] {
+	var walk func(t types.Type, prefix string, depth int)
+	walk = func(t types.Type, prefix string, depth int) {
+		if depth > 8 {
 			return
 		}
-		seen[t] = true
+		t = types.Unalias(t)
 		switch x := t.(type) {
 		case *types.Pointer:
-			walk(x.Elem())
+			walk(x.Elem(), prefix, depth)
 		case *types.Slice:
-			walk(x.Elem())
+			walk(x.Elem(), prefix, depth+1)
 		case *types.Map:
-			walk(x.Elem())
+			walk(x.Elem(), prefix, depth+1)
 		case *types.Named:
 			if x.Obj().Pkg() == nil || !strings.HasPrefix(x.Obj().Pkg().Path(), ModPath) {
 				return
@@ -65,14 +65,37 @@ func configKeys(p *Prog) map[string]string {
 			if !ok {
 				return
 			}
-			tn := NamedTypeOf(x)
 			for i := 0; i < st.NumFields(); i++ {
-				out[tn+"."+recordedField(x, st.Field(i).Name())] = yamlKeyOf(st, i)
-				walk(st.Field(i).Type())
+				tag := reflect.StructTag(st.Tag(i)).Get("yaml")
+				if strings.Contains(tag, ",inline") {
+					walk(st.Field(i).Type(), prefix, depth+1)
+					continue
+				}
+				if !st.Field(i).Exported() {
+					continue
+				}
+				key := yamlKeyOf(st, i)
+				path := key
+				if prefix != "" {
+					path = prefix + "." + key
+				}
+				kind := "value"
+				switch st.Field(i).Type().Underlying().(type) {
+				case *types.Struct:
+					kind = "section"
+				case *types.Slice:
+					kind = "list"
+				case *types.Map:
+					kind = "map"
+				}
+				out[path] = kind
+				if _, isStruct := st.Field(i).Type().Underlying().(*types.Struct); isStruct || true {
+					walk(st.Field(i).Type(), path, depth+1)
+				}
 			}
 		}
 	}
-	walk(root)
+	walk(root, "", 0)
 	return out
 }
 
@@ -101,9 +124,8 @@ func ConfigKeysTable(p *Prog) []byte {
 	return append(b, '\n')
 }
 
-// ConfigKeyDrift compares the configuration keys of the fields whose recorded name starts with one of the given
-// prefixes ("pkgpath.Type." or "pkgpath.Type.Field") with the record; it returns the number of fields compared and
-// a description of each difference.
+// ConfigKeyDrift compares the recorded YAML key paths that start with one of the given prefixes with the loaded
+// tree; it returns the number of paths compared and a description of each difference.
 func ConfigKeyDrift(p *Prog, prefixes []string) (int, []string) {
 	var rows [][2]string
 	if json.Unmarshal(pinnedConfigKeysJSON, &rows) != nil {
@@ -115,7 +137,7 @@ func ConfigKeyDrift(p *Prog, prefixes []string) (int, []string) {
 	for _, r := range rows {
 		match := false
 		for _, pre := range prefixes {
-			if r[0] == pre || (strings.HasSuffix(pre, ".") && strings.HasPrefix(r[0], pre)) {
+			if strings.HasPrefix(r[0], pre) {
 				match = true
 			}
 		}
@@ -123,13 +145,8 @@ func ConfigKeyDrift(p *Prog, prefixes []string) (int, []string) {
 			continue
 		}
 		n++
-		short := strings.ReplaceAll(r[0], ModPath+"/", "")
-		got, has := cur[r[0]]
-		switch {
-		case !has:
-			diffs = append(diffs, short+" is gone (was read from \""+r[1]+"\")")
-		case got != r[1]:
-			diffs = append(diffs, short+" is read from \""+got+"\", existing files say \""+r[1]+"\"")
+		if _, has := cur[r[0]]; !has {
+			diffs = append(diffs, "the key "+r[0]+" of existing configuration files is no longer read")
 		}
 	}
 	return n, diffs
